@@ -233,7 +233,7 @@ func c03Name(rs []c03Route, id int) string {
 var (
 	c03Lits    = []string{"a", "b", "c"}
 	c03Params  = []string{":x", ":y", ":z"}
-	c03Methods = []string{"GET", "POST", "PUT"}
+	c03Methods = []string{"GET", "POST", "PUT", "GET", "POST", "DELETE", "HEAD", "OPTIONS", "PATCH"} // all seven supported methods, the common ones twice
 )
 
 func c03GenPattern(r interface{ Intn(int) int }) string {
@@ -318,12 +318,12 @@ func c03Paths() []string {
 }
 
 func TestVerifC03Router(t *testing.T) {
-	m := vk.New(t, "C03", "seeded route tables (1-12 registrations over literals {a,b,c}, params {:x,:y,:z}, depth 0-4, methods GET/POST/PUT; ~18% invalid or dirty registrations: duplicates, dirty duplicates, non-'/' paths, bad methods) x every request path up to depth 3 over {a,b,c,z} + sampled depth 4-5 + dirty variants, x methods GET/POST/PUT/DELETE; outcome compared with a reference segment matcher; non-trivial table = produced matches, 405s and 404s")
+	m := vk.New(t, "C03", "seeded route tables (1-12 registrations over literals {a,b,c}, params {:x,:y,:z}, depth 0-4, all seven supported methods; ~18% invalid or dirty registrations: duplicates, dirty duplicates, non-'/' paths, bad methods) x every request path up to depth 3 over {a,b,c,z} + sampled depth 4-5 + dirty variants, x all seven methods; outcome compared with a reference segment matcher; non-trivial table = produced matches, 405s and 404s")
 	defer m.Done()
-	n := vk.N(1500, 120000)
+	n := vk.N(1000, 120000)
 	r := m.Rand("tables")
 	paths := c03Paths()
-	reqMethods := []string{"GET", "POST", "PUT", "DELETE"}
+	reqMethods := []string{"GET", "POST", "PUT", "DELETE", "HEAD", "OPTIONS", "PATCH"}
 	classes := map[string]int64{}
 	for idx := 1; idx <= n; idx++ {
 		regs := c03GenTable(r)
@@ -338,6 +338,22 @@ func TestVerifC03Router(t *testing.T) {
 		}
 		for i := 0; i < 20; i++ {
 			extra = append(extra, c03Dirty(r, paths[r.Intn(len(paths))]))
+		}
+		// concrete instances of the registered patterns (params replaced by alphabet letters), so that
+		// every table is also probed where it is supposed to match
+		for _, reg := range regs {
+			if len(reg.Pattern) == 0 || reg.Pattern[0] != '/' {
+				continue
+			}
+			for k := 0; k < 3; k++ {
+				segs := strings.Split(path.Clean(reg.Pattern), "/")
+				for i, sg := range segs {
+					if strings.HasPrefix(sg, ":") {
+						segs[i] = []string{"a", "b", "c", "z"}[r.Intn(4)]
+					}
+				}
+				extra = append(extra, strings.Join(segs, "/"))
+			}
 		}
 		if !m.Only(idx) {
 			continue
